@@ -28,7 +28,7 @@ import sys
 import termios
 
 from .. import tlc
-from ..core import Ctx, use_repo, VERIF
+from ..core import Ctx, use_repo
 
 SPEC = 'spec/io'
 POLLERS = ['select', 'poll', 'epoll']
@@ -365,12 +365,6 @@ def replay_history(hist, pollers=POLLERS):
 
 def only(lines, pollers):
     return [ln for ln in lines if ln['p'] == '' or ln['p'] in pollers]
-
-
-def replay_many(hists):
-    """Replays are independent and cheap (a few ms each); they run serially so
-    that the run time stays predictable on a shared machine."""
-    return [replay_history(h) for h in hists]
 
 
 # ---------------------------------------------------------------------------
